@@ -292,6 +292,44 @@ Theorem C15_restart_level_pool_properties :
 Proof. exact restart_level_pool_props. Qed.
 Print Assumptions C15_restart_level_pool_properties.
 
+(* A restart reproduces the ownership the persisted store records.  [ps] = the component and its store after ANY
+   history of events and earlier restarts; [store_sound ps]: the block of every persisted record is held by the
+   record's subscriber.  Then after a restart that replays the records of the sessions in [order]: every such record
+   is held again by the same subscriber and its session is committed again; nothing is held that the store (and the
+   pool before the restart) did not hold; the store is unchanged.
+   _partial: what is missing is the discharge of [store_sound] from a hypothesis on the history.  It is NOT an
+   invariant of all histories: handleSessionRelease frees every block of the subscriber but deletes only the releasing
+   session's record, so with two sessions on one subscriber key a stale record survives
+   (C15_store_soundness_needs_one_session_per_key below); likewise a record the pool refused stays in the store.  The
+   hypothesis that would make it an invariant is "one live session per (VRF, inside address)" (property C02) plus one
+   record per session; it is checked by correspondence instead (record dumps `b` against pool dumps before and after
+   every restart). *)
+Theorem C15_restart_reproduces_ownership_partial :
+  forall r p0 ops order, setup repaired r = Some p0 ->
+  let c := effective r in
+  let ps := prun repaired c p0 (pcomp_init p0) ops in
+  store_sound ps ->
+  let ps' := pstep repaired c p0 ps (PRestart order) in
+  (forall sid k b, In sid order -> db_get sid (pc_db ps) = Some (k, b) ->
+     In b (blocks_of (cp_pool (pc_comp ps')) k) /\ existsb (N.eqb sid) (cp_sess (pc_comp ps')) = true) /\
+  (forall k b, In b (blocks_of (cp_pool (pc_comp ps')) k) ->
+     exists sid, In sid order /\ db_get sid (pc_db ps) = Some (k, b) /\ In b (blocks_of (cp_pool (pc_comp ps)) k)) /\
+  pc_db ps' = pc_db ps.
+Proof. exact restart_restores_store. Qed.
+Print Assumptions C15_restart_reproduces_ownership_partial.
+
+(* why [store_sound] cannot simply be dropped: sessions 7 and 8 on the same subscriber; 7's record is restored, 8 is
+   activated onto 7's block (nothing new is persisted), 8 is released (the block is freed, only record 8 would be
+   deleted): record 7 is stale, and a restart gives subscriber 5 the block back although it was released *)
+Theorem C15_store_soundness_needs_one_session_per_key :
+  let ps := prun repaired (effective ex_raw1) (pool_of repaired ex_raw1) (pcomp_init (pool_of repaired ex_raw1))
+              [PEvent (CRestorePresent 7 5 {| b_ip := 1681915905; b_start := 1024; b_end := 1039 |} 0 None);
+               PEvent (CActivate 8 5 true None); PEvent (CRelease 8 5 [])] in
+  blocks_of (cp_pool (pc_comp ps)) 5 = [] /\ db_get 7 (pc_db ps) <> None /\
+  blocks_of (cp_pool (pc_comp (pstep repaired (effective ex_raw1) (pool_of repaired ex_raw1) ps (PRestart [7])))) 5 <> [].
+Proof. vm_compute. repeat split; discriminate. Qed.
+Print Assumptions C15_store_soundness_needs_one_session_per_key.
+
 (* ---- what the code violated before the fixes now in /repo (variant [defective] or a single missing repair) ---- *)
 
 (* Before 285c7b2: RestoreMapping accepts an unaligned block overlapping subscriber 1's block; releasing the restored subscriber
@@ -538,3 +576,18 @@ Example C15_restart_nonvacuous :
   blocks_of (cp_pool (pc_comp s)) 9 = [] /\ blocks_of (cp_pool (pc_comp s)) 5 = [].
 Proof. vm_compute. repeat split. Qed.
 Print Assumptions C15_restart_nonvacuous.
+
+(* [store_sound] holds after an ordinary history (one session per subscriber), and the restart then reproduces the
+   ownership: hypotheses of C15_restart_reproduces_ownership_partial are met *)
+Example C15_restart_ownership_nonvacuous :
+  let ps := prun repaired (effective ex_raw1) (pool_of repaired ex_raw1) (pcomp_init (pool_of repaired ex_raw1))
+              [PEvent (CActivate 1 5 true None); PEvent (CActivate 2 6 true None); PEvent (CActivateLate 4 9 None);
+               PEvent (CRelease 2 6 []); PEvent (CRestoreDegraded 7 7 {| b_ip := 1681915905; b_start := 1088; b_end := 1103 |})] in
+  forallb (fun e => existsb (block_eqb (snd (snd e))) (blocks_of (cp_pool (pc_comp ps)) (fst (snd e)))) (pc_db ps) = true /\
+  map fst (pc_db ps) = [7; 1] /\
+  let ps' := pstep repaired (effective ex_raw1) (pool_of repaired ex_raw1) ps (PRestart [1; 7]) in
+  blocks_of (cp_pool (pc_comp ps')) 5 = blocks_of (cp_pool (pc_comp ps)) 5 /\
+  blocks_of (cp_pool (pc_comp ps')) 7 = blocks_of (cp_pool (pc_comp ps)) 7 /\
+  blocks_of (cp_pool (pc_comp ps')) 9 = [] /\ cp_sess (pc_comp ps') = [1; 7].
+Proof. vm_compute. repeat split. Qed.
+Print Assumptions C15_restart_ownership_nonvacuous.
